@@ -107,6 +107,8 @@ class Machine(RuleBasedStateMachine):
         p = data.draw(st.integers(0, self.n_procs - 1))
         n = NB if self.proc_kind[p] == "b" else NX
         z = data.draw(st.integers(0, n - 1))
+        if data.draw(st.integers(0, 5)) == 0 and self.tz_info:
+            z = self.tz_info[-1][2] % n + n      # another edition of the zone bound last
         self._do(["tz", p, z])
         self.tz_info.append(("d", p, z))
 
@@ -130,7 +132,12 @@ class Machine(RuleBasedStateMachine):
         if how == "index":
             self._do(["mtz", m, "index", i])
         elif how == "info":
-            self._do(["mtz", m, "info", zs[i]])
+            z = zs[i]
+            if data.draw(st.integers(0, 3)) == 0:
+                z += NB if db == "b" else NX      # another edition of that zone: same name and id, other eras
+            self._do(["mtz", m, "info", z])
+            self.tz_info.append(("m", m, z))
+            return
         elif how == "name":
             self._do(["mtz", m, "name", rpcdrv.hexname(ZONE_NAMES[db][zs[i]])])
         else:
@@ -252,9 +259,28 @@ def djb2(s):
 
 
 def pairs_job(a):
-    exe, db, zi, zj = a
-    rc, out, err = vt.run_exe(exe, ["pairs", db, zi, zj], timeout=3600)
+    exe, db, zi, zj = a[:4]
+    mode = a[4] if len(a) > 4 else "pairs"
+    rc, out, err = vt.run_exe(exe, [mode, db, zi, zj], timeout=3600)
     return rc, out, err, a
+
+
+def report_pairs(ctx, rc, out, err, a):
+    mode = a[4] if len(a) > 4 else "pairs"
+    zname = ZONE_NAMES[a[1]][a[2]]
+    if rc != 0:
+        ctx.violation("%s-crash:%s" % (mode, a[1]), {"pairs": list(a[1:4]), "mode": mode, "zone": zname},
+                      "exhaustive histories (%s) crashed for %s %s rc=%s: %s" % (mode, a[1], zname, rc, (err or "")[-600:]))
+    for line in (out or "").splitlines():
+        if line.startswith("MISMATCH"):
+            ctx.violation("%s-mismatch:%s:%s" % (mode, a[1], line.split("hist=")[1].split(" ")[0][1:]),
+                          {"pairs": list(a[1:4]), "mode": mode, "zone": zname, "line": line}, "%s %s: %s" % (a[1], zname, line))
+        elif line.startswith("PAIRS"):
+            kv = dict(x.split("=") for x in line.split()[1:])
+            ctx.evaluations += int(kv["n"])
+            ctx.nontrivial += int(kv["n"]) - (54 * 25 if mode == "pairs" else 0)   # histories whose steps differ in year or zone
+            ctx.count({"pairs": "two_and_three_step_histories", "rebind": "rebind_histories_of_multi_era_zone_pairs",
+                       "alts": "two_editions_of_a_zone_in_one_manager"}[mode], int(kv["n"]))
 
 
 def run(ctx):
@@ -277,6 +303,11 @@ def run(ctx):
     thorough = ctx.tier == "thorough"
     if ctx.replay:
         r = json.load(open(ctx.replay))["replay"]
+        if "pairs" in r:
+            a = (exe_fast,) + tuple(r["pairs"]) + (r.get("mode", "pairs"),)
+            report_pairs(ctx, *pairs_job(a)[:3], a)
+            DRV.close()
+            return
         f = rpcdrv.run_history(DRV, r["ops"])
         if f:
             ctx.violation(f["bucket"], {"ops": r["ops"], "failure": f}, "replayed history fails: %s" % json.dumps(f)[:1500])
@@ -290,20 +321,23 @@ def run(ctx):
         zs = list(range(n)) if thorough else rnd.sample(range(n), 40)
         for z in zs:
             jobs.append((exe_fast, db, z, rnd.randrange(n)))
+    # every ordered pair of zones with several eras re-bound on one processor (basic: all of them; extended: a sample),
+    # and two editions of one zone (same name and id, different eras) handed to one manager
+    for db, n in (("b", NB), ("x", NX)):
+        rc, out, err = vt.run_exe(exe_fast, ["eras", db], timeout=600)
+        multi = [int(l.split()[1]) for l in out.splitlines() if l.startswith("ERAS") and int(l.split()[2]) > 1]
+        ctx.extra["zones_with_several_eras_" + db] = len(multi)
+        ordered = [(i, j) for i in multi for j in multi if i != j]
+        lim = 160 if db == "b" else (2000 if thorough else 120)
+        if len(ordered) > lim:
+            ordered = rnd.sample(ordered, lim)
+        for i, j in ordered:
+            jobs.append((exe_fast, db, i, j, "rebind"))
+        step = 17
+        for lo in range(0, n, step):
+            jobs.append((exe_fast, db, lo, lo + step, "alts"))
     for rc, out, err, a in vt.pmap(pairs_job, jobs):
-        zname = ZONE_NAMES[a[1]][a[2]]
-        if rc != 0:
-            ctx.violation("pairs-crash:%s" % a[1], {"pairs": list(a[1:]), "zone": zname},
-                          "exhaustive two-step histories crashed for %s %s rc=%s: %s" % (a[1], zname, rc, (err or "")[-600:]))
-        for line in (out or "").splitlines():
-            if line.startswith("MISMATCH"):
-                ctx.violation("pairs-mismatch:%s:%s" % (a[1], line.split("hist=")[1].split(" ")[0][1:]),
-                              {"pairs": list(a[1:]), "zone": zname, "line": line}, "%s %s: %s" % (a[1], zname, line))
-            elif line.startswith("PAIRS"):
-                kv = dict(x.split("=") for x in line.split()[1:])
-                ctx.evaluations += int(kv["n"])
-                ctx.nontrivial += int(kv["n"]) - 54 * 25   # histories whose two steps differ in year
-                ctx.count("two_step_histories", int(kv["n"]))
+        report_pairs(ctx, rc, out, err, a)
     # ---- generator 2: Hypothesis state machine ----
     nruns = 5000 if thorough else 400
     sett = settings(max_examples=nruns, stateful_step_count=60 if thorough else 40, deadline=None, database=None,
